@@ -29,8 +29,15 @@ static int idx(list_node_t *n)
 	return 999;
 }
 static list_node_t *node(int i) { return &items[i - 1].link; }
+static int member(int n);
 static int cmp(list_node_t *a, list_node_t *b)
 {
+	/* a comparator may itself use the library (on other lists): the call in progress must not notice */
+	if (nlists > 1 && nnodes > 0) {
+		list_iterator_t tmp;
+		(void) list_contains(&lists[nlists - 1], &items[0].link, NULL);
+		(void) list_iterate(&lists[0], &tmp);
+	}
 	return containerof(a, item_t, link)->key - containerof(b, item_t, link)->key;
 }
 static int member(int n)
@@ -79,17 +86,24 @@ static void emit(const char *e, int na, long a0, long a1, long r)
 		printf("%s%d", i ? "," : "", idx(items[i].link.next));
 	printf("],\"itl\":%d,\"it\":%d}}\n", itl, itl ? idx(*iter.prevnext) : 0);
 }
-static void kill_iter(int l) { if (itl == l) itl = 0; }
+/* the node whose next field the live iterator points at (0: the list's head link) */
+static int iter_pred(void)
+{
+	if (!itl || iter.prevnext == &lists[itl - 1].head) return 0;
+	for (int i = 0; i < nnodes; i++) if (iter.prevnext == &items[i].link.next) return i + 1;
+	return -1;
+}
+/* a live iterator survives every list-level operation except the removal of its predecessor node */
 
 static void apply(const char *op, long a, long b)
 {
 	long r = 0;
 	int na = 2;
-	if (!strcmp(op, "Insert")) { list_insert(&lists[a - 1], node(b)); kill_iter(a); }
-	else if (!strcmp(op, "Push")) { list_push(&lists[a - 1], node(b)); kill_iter(a); }
-	else if (!strcmp(op, "InsertSorted")) { list_insert_sorted(&lists[a - 1], node(b), cmp); kill_iter(a); }
-	else if (!strcmp(op, "Extract")) { r = idx(list_extract(&lists[a - 1])); kill_iter(a); na = 1; }
-	else if (!strcmp(op, "Remove")) { r = list_remove(&lists[a - 1], node(b)); kill_iter(a); }
+	if (!strcmp(op, "Insert")) { list_insert(&lists[a - 1], node(b)); }
+	else if (!strcmp(op, "Push")) { list_push(&lists[a - 1], node(b)); }
+	else if (!strcmp(op, "InsertSorted")) { list_insert_sorted(&lists[a - 1], node(b), cmp); }
+	else if (!strcmp(op, "Extract")) { int pr = iter_pred(); r = idx(list_extract(&lists[a - 1])); if (itl == a && r > 0 && pr == r) itl = 0; na = 1; }
+	else if (!strcmp(op, "Remove")) { int pr = iter_pred(); r = list_remove(&lists[a - 1], node(b)); if (itl == a && r && pr == b) itl = 0; }
 	else if (!strcmp(op, "Contains")) { r = list_contains(&lists[a - 1], node(b), NULL); }
 	else if (!strcmp(op, "ContainsIter")) {
 		/* a caller that wants only the iterator position may ignore the answer: on alternate calls the result is
@@ -154,6 +168,31 @@ int main(void)
 			apply("Contains", 1, nn); apply("Contains", 1, 256); apply("Contains", 1, 255); apply("Contains", 1, 1);
 			apply("Remove", 1, 256); apply("Contains", 1, 256); apply("Remove", 1, nn); apply("ContainsIter", 1, nn - 1);
 			apply("IterRemove", 0, 0); apply("Remove", 1, 257); apply("Extract", 1, 0); apply("Contains", 1, nn - 2);
+		} else if (drv_is(&c, "Big")) {
+			/* one list of n nodes (far more than any bounded walk would allow for): the oracle for this size is the driver's
+			 * own bookkeeping, the specification checks the tallies */
+			int n = drv_arg(&c, 0);
+			item_t *it = calloc(n + 2, sizeof(item_t));
+			list_t L = LIST_VAR_INIT;
+			for (int i = 0; i < n; i++) list_insert(&L, &it[i].link);
+			int f_first = list_contains(&L, &it[0].link, NULL), f_mid = list_contains(&L, &it[n / 2].link, NULL);
+			int f_last = list_contains(&L, &it[n - 1].link, NULL), f_abs = list_contains(&L, &it[n].link, NULL);
+			int r_last = list_remove(&L, &it[n - 1].link), f_last2 = list_contains(&L, &it[n - 1].link, NULL);
+			int r_abs = list_remove(&L, &it[n].link);
+			list_iterator_t li;
+			int f_abs2 = list_contains(&L, &it[n].link, &li);       /* not found: the iterator is past the end */
+			list_iterator_insert(&li, &it[n].link);                  /* "append if absent" */
+			list_insert(&L, &it[n + 1].link);
+			int r_mid = list_remove(&L, &it[n - 2].link);
+			/* expected order now: 0 .. n-3, n, n+1 */
+			long k = 0; int ok = 1;
+			for (list_node_t *c2 = L.head; c2; c2 = c2->next, k++) {
+				long want = k < n - 2 ? k : k == n - 2 ? n : n + 1;
+				if (k > n || c2 != &it[want].link) { ok = 0; break; }
+			}
+			printf("{\"e\":\"Big\",\"n\":%d,\"found\":[%d,%d,%d,%d,%d,%d],\"removed\":[%d,%d,%d],\"len\":%ld,\"ok\":%d}\n", n,
+			       f_first, f_mid, f_last, f_abs, f_last2, f_abs2, r_last, r_abs, r_mid, k, ok);
+			free(it);
 		} else if (drv_is(&c, "Gen")) {
 			gen(drv_arg(&c, 0), drv_arg(&c, 1), drv_arg(&c, 2), drv_arg(&c, 3), drv_arg(&c, 4));
 		} else {
